@@ -207,8 +207,13 @@ theorem hasNormal_iff {d : Dir} {n : Str} :
   · rintro ⟨c, ⟨hc, hn⟩, h⟩; exact ⟨c, hc, h, hn⟩
   · rintro ⟨c, hc, h, hn⟩; exact ⟨c, ⟨hc, hn⟩, h⟩
 
+theorem badTarget_false_iff {r : Bool} {t : Str} :
+    badTarget r t = false ↔ t ≠ [] ∧ isDots t = false ∧ isWh t = false ∧ (r && isLandmark t) = false := by
+  simp [badTarget, and_assoc]
+
 theorem mem_liveWhs {d : Dir} {t : Str} {c : Child} :
-    (t, c) ∈ liveWhs d ↔ c ∈ d.children ∧ whOf d.isRoot c.name = some t ∧ hasNormal d t = false := by
+    (t, c) ∈ liveWhs d ↔ c ∈ d.children ∧ whOf d.isRoot c.name = some t ∧
+      badTarget d.isRoot t = false ∧ hasNormal d t = false := by
   simp only [liveWhs, List.mem_filterMap]
   constructor
   · rintro ⟨c', hc', h⟩
@@ -216,22 +221,24 @@ theorem mem_liveWhs {d : Dir} {t : Str} {c : Child} :
     | none => simp [hw] at h
     | some t' =>
       simp only [hw] at h
-      by_cases hn : hasNormal d t' = true
-      · simp [hn] at h
-      · simp [hn] at h
-        obtain ⟨rfl, rfl⟩ := h
-        exact ⟨hc', hw, by simpa using hn⟩
-  · rintro ⟨hc, hw, hn⟩
-    exact ⟨c, hc, by simp [hw, hn]⟩
+      by_cases hb : badTarget d.isRoot t' = true
+      · simp [hb] at h
+      · by_cases hn : hasNormal d t' = true
+        · simp [hb, hn] at h
+        · simp [hb, hn] at h
+          obtain ⟨rfl, rfl⟩ := h
+          exact ⟨hc', hw, by simpa using hb, by simpa using hn⟩
+  · rintro ⟨hc, hw, hb, hn⟩
+    exact ⟨c, hc, by simp [hw, hb, hn]⟩
 
 /-- What `readdir` lists: the two dot entries, every normal child, and every whiteout whose target is
 not the name of a normal child. -/
 theorem mem_readdir {d : Dir} {ents : List DirEnt} (h : readdir d = some ents) (e : DirEnt) :
     e ∈ ents ↔ e ∈ dotEnts ∨
       (∃ c ∈ d.children, isNormal d.isRoot c.name = true ∧ normalEnt d.base c = some e) ∨
-      (∃ c ∈ d.children, ∃ t, whOf d.isRoot c.name = some t ∧ hasNormal d t = false ∧
-        whEnt d.base t c = some e) := by
-  unfold readdir at h
+      (∃ c ∈ d.children, ∃ t, whOf d.isRoot c.name = some t ∧ badTarget d.isRoot t = false ∧
+        hasNormal d t = false ∧ whEnt d.base t c = some e) := by
+  unfold readdir readdirWith at h
   cases hn : mapOpt (normalEnt d.base) (normals d) with
   | none => simp [hn] at h
   | some ns =>
@@ -246,30 +253,30 @@ theorem mem_readdir {d : Dir} {ents : List DirEnt} (h : readdir d = some ents) (
       · rintro (⟨c, ⟨hc, hnm⟩, he⟩ | hdot | ⟨⟨t, c⟩, hp, he⟩)
         · exact Or.inr (Or.inl ⟨c, hc, hnm, he⟩)
         · exact Or.inl hdot
-        · obtain ⟨hc, hwo, hno⟩ := mem_liveWhs.mp hp
-          exact Or.inr (Or.inr ⟨c, hc, t, hwo, hno, he⟩)
-      · rintro (hdot | ⟨c, hc, hnm, he⟩ | ⟨c, hc, t, hwo, hno, he⟩)
+        · obtain ⟨hc, hwo, hb, hno⟩ := mem_liveWhs.mp hp
+          exact Or.inr (Or.inr ⟨c, hc, t, hwo, hb, hno, he⟩)
+      · rintro (hdot | ⟨c, hc, hnm, he⟩ | ⟨c, hc, t, hwo, hb, hno, he⟩)
         · exact Or.inr (Or.inl hdot)
         · exact Or.inl ⟨c, ⟨hc, hnm⟩, he⟩
-        · exact Or.inr (Or.inr ⟨(t, c), mem_liveWhs.mpr ⟨hc, hwo, hno⟩, he⟩)
+        · exact Or.inr (Or.inr ⟨(t, c), mem_liveWhs.mpr ⟨hc, hwo, hb, hno⟩, he⟩)
 
 theorem readdir_some_normal {d : Dir} {ents : List DirEnt} (h : readdir d = some ents) {c : Child}
     (hc : c ∈ d.children) (hn : isNormal d.isRoot c.name = true) : (normalEnt d.base c).isSome := by
-  unfold readdir at h
+  unfold readdir readdirWith at h
   cases hn' : mapOpt (normalEnt d.base) (normals d) with
   | none => simp [hn'] at h
   | some ns => exact (mapOpt_some hn').2 c (mem_normals.mpr ⟨hc, hn⟩)
 
 theorem readdir_some_wh {d : Dir} {ents : List DirEnt} (h : readdir d = some ents) {c : Child} {t : Str}
-    (hc : c ∈ d.children) (hw : whOf d.isRoot c.name = some t) (hno : hasNormal d t = false) :
-    (whEnt d.base t c).isSome := by
-  unfold readdir at h
+    (hc : c ∈ d.children) (hw : whOf d.isRoot c.name = some t) (hb : badTarget d.isRoot t = false)
+    (hno : hasNormal d t = false) : (whEnt d.base t c).isSome := by
+  unfold readdir readdirWith at h
   cases hn' : mapOpt (normalEnt d.base) (normals d) with
   | none => simp [hn'] at h
   | some ns =>
     cases hw' : mapOpt (fun p => whEnt d.base p.1 p.2) (liveWhs d) with
     | none => simp [hn', hw'] at h
-    | some ws => exact (mapOpt_some hw').2 (t, c) (mem_liveWhs.mpr ⟨hc, hw, hno⟩)
+    | some ws => exact (mapOpt_some hw').2 (t, c) (mem_liveWhs.mpr ⟨hc, hw, hb, hno⟩)
 
 /-- Every id in range ⇒ `readdir` does not fail. -/
 theorem readdir_isSome {d : Dir} (h : ∀ c ∈ d.children, c.id ≤ maxU32 - 3) : (readdir d).isSome := by
@@ -283,7 +290,7 @@ theorem readdir_isSome {d : Dir} (h : ∀ c ∈ d.children, c.id ≤ maxU32 - 3)
     rintro ⟨t, c⟩ hc
     have := h c (mem_liveWhs.mp hc).1
     simp [whEnt, inodeOfID, Nat.not_lt.mpr this]
-  unfold readdir
+  unfold readdir readdirWith
   cases hn : mapOpt (normalEnt d.base) (normals d) with
   | none => simp [hn] at h1
   | some ns =>
@@ -313,7 +320,8 @@ theorem whOf_mkWh {r : Bool} {n : Str} (h : isWh n = false) : whOf r (mkWh n) = 
 
 /-- A name that passes Lookup's first two checks and is not listed has neither a child nor a whiteout. -/
 theorem not_listed_no_child {d : Dir} {ents : List DirEnt} (h : readdir d = some ents) {n : Str}
-    (hl : (d.isRoot && isLandmark n) = false) (hw : isWh n = false) (hnl : entNamed ents n = false) :
+    (hne : n ≠ []) (hl : (d.isRoot && isLandmark n) = false) (hw : isWh n = false)
+    (hnl : entNamed ents n = false) :
     getChild d.children n = none ∧ getChild d.children (mkWh n) = none := by
   have hnd : isDots n = false := by
     cases hd : isDots n with
@@ -324,6 +332,7 @@ theorem not_listed_no_child {d : Dir} {ents : List DirEnt} (h : readdir d = some
     have : entNamed ents n = true := entNamed_iff.mpr ⟨e, he, hn⟩
     rw [this] at hnl; cases hnl
   have hnorm : isNormal d.isRoot n = true := isNormal_iff.mpr ⟨hnd, hl, hw⟩
+  have hbad : badTarget d.isRoot n = false := badTarget_false_iff.mpr ⟨hne, hnd, hw, hl⟩
   have h1 : getChild d.children n = none := by
     cases hg : getChild d.children n with
     | none => rfl
@@ -351,11 +360,11 @@ theorem not_listed_no_child {d : Dir} {ents : List DirEnt} (h : readdir d = some
         obtain ⟨c, hc', hcn', _⟩ := hasNormal_iff.mp hh
         have := (getChild_none.mp h1) c hc'
         exact absurd hcn' this
-    have hs := readdir_some_wh h hc hwo hno
+    have hs := readdir_some_wh h hc hwo hbad hno
     cases he : whEnt d.base n w with
     | none => simp [he] at hs
     | some e =>
-      have hmem : e ∈ ents := (mem_readdir h e).mpr (Or.inr (Or.inr ⟨w, hc, n, hwo, hno, he⟩))
+      have hmem : e ∈ ents := (mem_readdir h e).mpr (Or.inr (Or.inr ⟨w, hc, n, hwo, hbad, hno, he⟩))
       have : e.name = n := by
         simp only [whEnt, Option.map_eq_some_iff] at he
         obtain ⟨ino, _, rfl⟩ := he; rfl
@@ -384,7 +393,7 @@ theorem lookupSt_inv {d : Dir} {s : NodeSt} (hi : Inv d s) (n : Str) : Inv d (lo
   all_goals first | exact hi | exact readdirSt_inv hi
 
 /-- Neither the memoised listing nor go-fuse's child map changes what Lookup answers. -/
-theorem lookupSt_stable {d : Dir} {s : NodeSt} (hi : Inv d s) (n : Str) :
+theorem lookupSt_stable {d : Dir} {s : NodeSt} (hi : Inv d s) (n : Str) (hne : n ≠ []) :
     (lookupSt d s n).2.stable = (lookupSt d {} n).2 := by
   unfold lookupSt
   by_cases h1 : (d.isRoot && isLandmark n) = true
@@ -431,7 +440,7 @@ theorem lookupSt_stable {d : Dir} {s : NodeSt} (hi : Inv d s) (n : Str) :
           | some w => simp only; cases inodeOfID d.base w.id <;> rfl
           | none => rfl
       · have hl' : entNamed ents n = false := by simpa using hl
-        obtain ⟨hg1, hg2⟩ := not_listed_no_child hr (by simpa using h1) (by simpa using h2) hl'
+        obtain ⟨hg1, hg2⟩ := not_listed_no_child hr hne (by simpa using h1) (by simpa using h2) hl'
         simp [hl', hg1, hg2, LRes.stable]
 
 theorem adopt_inv {d : Dir} {s : NodeSt} (hi : Inv d s) (n : Str) (r : LRes) : Inv d (adopt d s n r) := by
@@ -481,25 +490,28 @@ theorem stepOp_inv {d : Dir} {s : NodeSt} (hi : Inv d s) (o : Op) : Inv d (stepO
     · exact adopt_inv (lookupSt_inv hi n) _ _
     · exact lookupSt_inv hi n
 
-theorem stepOp_ans {d : Dir} {s : NodeSt} (hi : Inv d s) (o : Op) :
+theorem stepOp_ans {d : Dir} {s : NodeSt} (hi : Inv d s) (o : Op) (hv : o.valid = true) :
     (stepOp d s o).2.stable = pureAns d o := by
   cases o with
   | readdir => simp [stepOp, Ans.stable, pureAns, readdirSt_ans hi]
-  | lookup n ad => simp [stepOp, Ans.stable, pureAns, lookupSt_stable hi n]
+  | lookup n ad =>
+    have hne : n ≠ [] := by simpa [Op.valid] using hv
+    simp [stepOp, Ans.stable, pureAns, lookupSt_stable hi n hne]
 
 theorem inv_init (d : Dir) : Inv d {} := by
   refine ⟨?_, ?_⟩
   · intro ents h; cases h
   · intro n c w h; simp [lookupKid] at h
 
-theorem run_stable {d : Dir} (ops : List Op) : ∀ {s : NodeSt}, Inv d s →
+theorem run_stable {d : Dir} (ops : List Op) (hv : ∀ o ∈ ops, o.valid = true) : ∀ {s : NodeSt}, Inv d s →
     (run d s ops).map Ans.stable = ops.map (pureAns d) := by
   induction ops with
   | nil => intro s _; rfl
   | cons o os ih =>
     intro s hi
     simp only [run, List.map_cons]
-    rw [stepOp_ans hi o, ih (stepOp_inv hi o)]
+    rw [stepOp_ans hi o (hv o (List.mem_cons_self ..)),
+      ih (fun o' ho' => hv o' (List.mem_cons_of_mem _ ho')) (stepOp_inv hi o)]
 
 theorem lookupPure_eq (d : Dir) (n : Str) :
     lookupPure d n =
@@ -547,25 +559,25 @@ theorem whEnt_eq {b : Nat} {t : Str} {c : Child} {e : DirEnt} (h : whEnt b t c =
 theorem S_IFCHR_type : S_IFCHR &&& S_IFMT = S_IFCHR := by decide
 
 /-- listed ⇒ lookup succeeds with the same inode and type. -/
-theorem listed_lookup {d : Dir} {ents : List DirEnt} (hnd : NoDupNames d) (hp : WhTargetsPlain d)
+theorem listed_lookup {d : Dir} {ents : List DirEnt} (hnd : NoDupNames d)
     (h : readdir d = some ents) {n : Str} (hpl : Plain d n) {e : DirEnt} (he : e ∈ ents) (hen : e.name = n) :
     (lookupPure d n).ok = true ∧ (lookupPure d n).ino? = some e.ino ∧
       (lookupPure d n).stype = e.mode &&& S_IFMT := by
-  rcases (mem_readdir h e).mp he with hdot | ⟨c, hc, hnorm, hce⟩ | ⟨c, hc, t, hwo, hno, hce⟩
+  rcases (mem_readdir h e).mp he with hdot | ⟨c, hc, hnorm, hce⟩ | ⟨c, hc, t, hwo, hbt, hno, hce⟩
   · exfalso
     simp only [dotEnts, List.mem_cons, List.mem_nil_iff, or_false] at hdot
     have : isDots n = true := by
       rcases hdot with rfl | rfl <;> (rw [← hen]; decide)
-    rw [hpl.1] at this; cases this
+    rw [hpl.2.1] at this; cases this
   · obtain ⟨h1, h2, h3⟩ := normalEnt_eq hce
     obtain ⟨_, hl, hw⟩ := isNormal_iff.mp hnorm
     have hcn : c.name = n := by rw [← h1, hen]
     rw [hcn] at hl hw
     have hg : getChild d.children n = some c := hcn ▸ getChild_of_mem hnd hc
     rw [lookupPure_eq]
-    simp [hl, hw, hpl.2, hg, nodeRes, h3, LRes.ok, LRes.ino?, LRes.stype, h2]
+    simp [hl, hw, hpl.2.2, hg, nodeRes, h3, LRes.ok, LRes.ino?, LRes.stype, h2]
   · obtain ⟨h1, h2, h3⟩ := whEnt_eq hce
-    obtain ⟨hw, hl⟩ := hp c hc t hwo
+    obtain ⟨_, _, hw, hl⟩ := badTarget_false_iff.mp hbt
     have htn : t = n := by rw [← h1, hen]
     subst htn
     obtain ⟨hcn, _, _⟩ := whOf_eq_some.mp hwo
@@ -576,12 +588,12 @@ theorem listed_lookup {d : Dir} {ents : List DirEnt} (hnd : NoDupNames d) (hp : 
       | some c' =>
         obtain ⟨hc', hcn'⟩ := getChild_some hg
         have : hasNormal d t = true :=
-          hasNormal_iff.mpr ⟨c', hc', hcn', by rw [hcn']; exact isNormal_iff.mpr ⟨hpl.1, hl, hw⟩⟩
+          hasNormal_iff.mpr ⟨c', hc', hcn', by rw [hcn']; exact isNormal_iff.mpr ⟨hpl.2.1, hl, hw⟩⟩
         rw [this] at hno; cases hno
     rw [lookupPure_eq]
-    simp [hl, hw, hpl.2, hg1, hg2, h3, LRes.ok, LRes.ino?, LRes.stype, h2, S_IFCHR_type]
+    simp [hl, hw, hpl.2.2, hg1, hg2, h3, LRes.ok, LRes.ino?, LRes.stype, h2, S_IFCHR_type]
 
-/-- lookup succeeds ⇒ listed (no hypothesis on whiteout targets needed). -/
+/-- lookup succeeds ⇒ listed . -/
 theorem lookup_listed {d : Dir} {ents : List DirEnt} (h : readdir d = some ents) {n : Str}
     (hpl : Plain d n) (hok : (lookupPure d n).ok = true) : ∃ e ∈ ents, e.name = n := by
   rw [lookupPure_eq] at hok
@@ -589,10 +601,11 @@ theorem lookup_listed {d : Dir} {ents : List DirEnt} (h : readdir d = some ents)
   · simp [h1, LRes.ok] at hok
   by_cases h2 : isWh n = true
   · simp [h1, h2, LRes.ok] at hok
-  simp only [h1, h2, hpl.2, if_false, Bool.false_eq_true] at hok
+  simp only [h1, h2, hpl.2.2, if_false, Bool.false_eq_true] at hok
   have h1' : (d.isRoot && isLandmark n) = false := by simpa using h1
   have h2' : isWh n = false := by simpa using h2
-  have hnorm : isNormal d.isRoot n = true := isNormal_iff.mpr ⟨hpl.1, h1', h2'⟩
+  have hnorm : isNormal d.isRoot n = true := isNormal_iff.mpr ⟨hpl.2.1, h1', h2'⟩
+  have hbad : badTarget d.isRoot n = false := badTarget_false_iff.mpr ⟨hpl.1, hpl.2.1, h2', h1'⟩
   cases hg1 : getChild d.children n with
   | some c =>
     obtain ⟨hc, hcn⟩ := getChild_some hg1
@@ -614,50 +627,11 @@ theorem lookup_listed {d : Dir} {ents : List DirEnt} (h : readdir d = some ents)
         | true =>
           obtain ⟨c, hc', hcn', _⟩ := hasNormal_iff.mp hh
           exact absurd hcn' ((getChild_none.mp hg1) c hc')
-      have hs := readdir_some_wh h hc hwo hno
+      have hs := readdir_some_wh h hc hwo hbad hno
       cases hce : whEnt d.base n w with
       | none => simp [hce] at hs
       | some e =>
-        exact ⟨e, (mem_readdir h e).mpr (Or.inr (Or.inr ⟨w, hc, n, hwo, hno, hce⟩)), (whEnt_eq hce).1⟩
-
-/-- A whiteout whose target `Lookup` refuses outright is listed all the same. -/
-theorem bad_target_listed_not_lookupable {d : Dir} {ents : List DirEnt} (h : readdir d = some ents)
-    {c : Child} (hc : c ∈ d.children) {t : Str} (hwo : whOf d.isRoot c.name = some t)
-    (hbad : isWh t = true ∨ (d.isRoot && isLandmark t) = true) :
-    Plain d t ∧ (∃ e ∈ ents, e.name = t) ∧ (lookupPure d t).ok = false := by
-  have hnd : isDots t = false := by
-    rcases hbad with hb | hb
-    · exact wh_not_dots hb
-    · exact landmark_not_dots (by simp at hb; exact hb.2)
-  have hns : (d.isRoot && t == stateDirName) = false := by
-    cases hr : d.isRoot with
-    | false => rfl
-    | true =>
-      simp only [Bool.true_and, beq_eq_false_iff_ne, ne_eq]
-      rintro rfl
-      rcases hbad with hb | hb
-      · rw [stateDir_not_wh] at hb; cases hb
-      · simp [stateDir_not_landmark] at hb
-  have hno : hasNormal d t = false := by
-    cases hh : hasNormal d t with
-    | false => rfl
-    | true =>
-      obtain ⟨c', _, hcn', hn'⟩ := hasNormal_iff.mp hh
-      rw [hcn'] at hn'
-      obtain ⟨_, hl, hw⟩ := isNormal_iff.mp hn'
-      rcases hbad with hb | hb
-      · rw [hw] at hb; cases hb
-      · rw [hl] at hb; cases hb
-  refine ⟨⟨hnd, hns⟩, ?_, ?_⟩
-  · have hs := readdir_some_wh h hc hwo hno
-    cases hce : whEnt d.base t c with
-    | none => simp [hce] at hs
-    | some e =>
-      exact ⟨e, (mem_readdir h e).mpr (Or.inr (Or.inr ⟨c, hc, t, hwo, hno, hce⟩)), (whEnt_eq hce).1⟩
-  · rw [lookupPure_eq]
-    rcases hbad with hb | hb
-    · by_cases h1 : (d.isRoot && isLandmark t) = true <;> simp [h1, hb, LRes.ok]
-    · simp [hb, LRes.ok]
+        exact ⟨e, (mem_readdir h e).mpr (Or.inr (Or.inr ⟨w, hc, n, hwo, hbad, hno, hce⟩)), (whEnt_eq hce).1⟩
 
 /-! ## Whiteouts -/
 
@@ -668,8 +642,8 @@ theorem dot_not_wh : isWh dot = false ∧ isWh dotdot = false := by decide
 inode of the `.wh.` entry; Lookup returns a whiteout node with that inode, and its Getattr says
 S_IFCHR with device 0/0. -/
 theorem whiteout_listed {d : Dir} {ents : List DirEnt} (hnd : NoDupNames d) (h : readdir d = some ents)
-    {n : Str} (hd : isDots n = false) (hl : (d.isRoot && isLandmark n) = false) (hw : isWh n = false)
-    (hs : (d.isRoot && n == stateDirName) = false)
+    {n : Str} (hne : n ≠ []) (hd : isDots n = false) (hl : (d.isRoot && isLandmark n) = false)
+    (hw : isWh n = false) (hs : (d.isRoot && n == stateDirName) = false)
     {w : Child} (hg2 : getChild d.children (mkWh n) = some w) (hg1 : getChild d.children n = none) :
     ∃ ino, inodeOfID d.base w.id = some ino ∧ (⟨n, S_IFCHR, ino⟩ : DirEnt) ∈ ents ∧
       (∀ e ∈ ents, e.name = n → e = ⟨n, S_IFCHR, ino⟩) ∧
@@ -683,7 +657,8 @@ theorem whiteout_listed {d : Dir} {ents : List DirEnt} (hnd : NoDupNames d) (h :
     | true =>
       obtain ⟨c, hc', hcn', _⟩ := hasNormal_iff.mp hh
       exact absurd hcn' ((getChild_none.mp hg1) c hc')
-  have hsome := readdir_some_wh h hc hwo hno
+  have hbad : badTarget d.isRoot n = false := badTarget_false_iff.mpr ⟨hne, hd, hw, hl⟩
+  have hsome := readdir_some_wh h hc hwo hbad hno
   cases hce : whEnt d.base n w with
   | none => simp [hce] at hsome
   | some e0 =>
@@ -691,9 +666,9 @@ theorem whiteout_listed {d : Dir} {ents : List DirEnt} (hnd : NoDupNames d) (h :
     have he0 : e0 = ⟨n, S_IFCHR, e0.ino⟩ := by
       cases e0 with | mk a b c => simp only [DirEnt.mk.injEq]; exact ⟨e1, e2, trivial⟩
     refine ⟨e0.ino, e3, ?_, ?_, ?_⟩
-    · rw [← he0]; exact (mem_readdir h e0).mpr (Or.inr (Or.inr ⟨w, hc, n, hwo, hno, hce⟩))
+    · rw [← he0]; exact (mem_readdir h e0).mpr (Or.inr (Or.inr ⟨w, hc, n, hwo, hbad, hno, hce⟩))
     · intro e he hen
-      rcases (mem_readdir h e).mp he with hdot | ⟨c, hc', hnorm, hce'⟩ | ⟨c, hc', t, hwo', _, hce'⟩
+      rcases (mem_readdir h e).mp he with hdot | ⟨c, hc', hnorm, hce'⟩ | ⟨c, hc', t, hwo', _, _, hce'⟩
       · exfalso
         simp only [dotEnts, List.mem_cons, List.mem_nil_iff, or_false] at hdot
         have : isDots n = true := by rcases hdot with rfl | rfl <;> (rw [← hen]; decide)
@@ -733,7 +708,7 @@ theorem real_listed {d : Dir} {ents : List DirEnt} (hnd : NoDupNames d) (h : rea
     refine ⟨e0.ino, e3, ?_, ?_⟩
     · rw [← he0]; exact (mem_readdir h e0).mpr (Or.inr (Or.inl ⟨c, hc, hnorm, hce⟩))
     · intro e he hen
-      rcases (mem_readdir h e).mp he with hdot | ⟨c', hc', _, hce'⟩ | ⟨c', hc', t, hwo', hno, hce'⟩
+      rcases (mem_readdir h e).mp he with hdot | ⟨c', hc', _, hce'⟩ | ⟨c', hc', t, hwo', _, hno, hce'⟩
       · exfalso
         simp only [dotEnts, List.mem_cons, List.mem_nil_iff, or_false] at hdot
         have : isDots n = true := by rcases hdot with rfl | rfl <;> (rw [← hen]; decide)
@@ -758,7 +733,7 @@ theorem absent_not_listed {d : Dir} {ents : List DirEnt} (h : readdir d = some e
     (hg1 : getChild d.children n = none) (hg2 : getChild d.children (mkWh n) = none) :
     ∀ e ∈ ents, e.name ≠ n := by
   intro e he hen
-  rcases (mem_readdir h e).mp he with hdot | ⟨c, hc, _, hce⟩ | ⟨c, hc, t, hwo, _, hce⟩
+  rcases (mem_readdir h e).mp he with hdot | ⟨c, hc, _, hce⟩ | ⟨c, hc, t, hwo, _, _, hce⟩
   · simp only [dotEnts, List.mem_cons, List.mem_nil_iff, or_false] at hdot
     have : isDots n = true := by rcases hdot with rfl | rfl <;> (rw [← hen]; decide)
     rw [hd] at this; cases this
@@ -769,18 +744,40 @@ theorem absent_not_listed {d : Dir} {ents : List DirEnt} (h : readdir d = some e
 
 /-! ## Hidden names -/
 
-theorem listed_names_clean {d : Dir} {ents : List DirEnt} (hp : WhTargetsPlain d) (h : readdir d = some ents)
+/-- Every listed entry other than the two synthetic dot entries comes from a child, and a whiteout entry
+never carries an empty name, a dot name, a `.wh.` name or (in the root) a landmark name. -/
+theorem listed_wh_target_valid {d : Dir} {ents : List DirEnt} (h : readdir d = some ents)
+    {e : DirEnt} (he : e ∈ ents) :
+    e ∈ dotEnts ∨ (∃ c ∈ d.children, c.name = e.name ∧ isNormal d.isRoot c.name = true) ∨
+      (badTarget d.isRoot e.name = false ∧ ∃ c ∈ d.children, c.name = mkWh e.name) := by
+  rcases (mem_readdir h e).mp he with hdot | ⟨c, hc, hnorm, hce⟩ | ⟨c, hc, t, hwo, hbt, _, hce⟩
+  · exact Or.inl hdot
+  · exact Or.inr (Or.inl ⟨c, hc, ((normalEnt_eq hce).1).symm, hnorm⟩)
+  · rw [← (whEnt_eq hce).1] at hbt hwo
+    exact Or.inr (Or.inr ⟨hbt, c, hc, (whOf_eq_some.mp hwo).1⟩)
+
+/-- A whiteout whose target Lookup never resolves yields no entry: nothing named like the target is
+listed unless it is one of the two dot entries or a real child of that name. -/
+theorem unresolvable_target_not_listed {d : Dir} {ents : List DirEnt} (h : readdir d = some ents) {t : Str}
+    (hb : badTarget d.isRoot t = true) {e : DirEnt} (he : e ∈ ents) (hen : e.name = t) :
+    e ∈ dotEnts ∨ ∃ c ∈ d.children, c.name = t ∧ isNormal d.isRoot c.name = true := by
+  rcases listed_wh_target_valid h he with hd | ⟨c, hc, hcn, hn⟩ | ⟨hbf, _⟩
+  · exact Or.inl hd
+  · exact Or.inr ⟨c, hc, hcn.trans hen, hn⟩
+  · rw [hen, hb] at hbf; cases hbf
+
+theorem listed_names_clean {d : Dir} {ents : List DirEnt} (h : readdir d = some ents)
     {e : DirEnt} (he : e ∈ ents) :
     isWh e.name = false ∧ e.name ≠ opaqueMarker ∧ (d.isRoot && isLandmark e.name) = false := by
   have key : isWh e.name = false ∧ (d.isRoot && isLandmark e.name) = false := by
-    rcases (mem_readdir h e).mp he with hdot | ⟨c, hc, hnorm, hce⟩ | ⟨c, hc, t, hwo, _, hce⟩
+    rcases (mem_readdir h e).mp he with hdot | ⟨c, hc, hnorm, hce⟩ | ⟨c, hc, t, hwo, hbt, _, hce⟩
     · simp only [dotEnts, List.mem_cons, List.mem_nil_iff, or_false] at hdot
       rcases hdot with rfl | rfl
       · simp [dot_not_wh.1, dot_not_landmark.1]
       · simp [dot_not_wh.2, dot_not_landmark.2]
     · obtain ⟨_, hl, hw⟩ := isNormal_iff.mp hnorm
       rw [(normalEnt_eq hce).1]; exact ⟨hw, hl⟩
-    · rw [(whEnt_eq hce).1]; exact hp c hc t hwo
+    · rw [(whEnt_eq hce).1]; exact ⟨(badTarget_false_iff.mp hbt).2.2.1, (badTarget_false_iff.mp hbt).2.2.2⟩
   refine ⟨key.1, ?_, key.2⟩
   intro hm
   have : isWh e.name = true := by rw [hm]; decide
@@ -797,7 +794,7 @@ theorem toc_not_listed {d : Dir} {ents : List DirEnt} (p : Bool) (src : List Str
     · simp only [Bool.and_eq_true, Bool.not_eq_true', bne_iff_ne, ne_eq] at hf
       exact ⟨hf.2, fun h => hnw (h ▸ hn)⟩
   intro e he hen
-  rcases (mem_readdir h e).mp he with hdot | ⟨c, hc, _, hce⟩ | ⟨c, hc, t, hwo, _, hce⟩
+  rcases (mem_readdir h e).mp he with hdot | ⟨c, hc, _, hce⟩ | ⟨c, hc, t, hwo, _, _, hce⟩
   · simp only [dotEnts, List.mem_cons, List.mem_nil_iff, or_false] at hdot
     rcases hdot with rfl | rfl <;> exact absurd hen (by decide)
   · exact (hb c.name (hsrc c hc)).1 ((normalEnt_eq hce).1 ▸ hen)
@@ -898,6 +895,16 @@ theorem lookupKid_none {β} {l : List (Str × β)} {x : Str} : lookupKid l x = n
     · simp [*]
     · simp [ih, *]
 
+theorem lookupKid_mem {β} {l : List (Str × β)} {x : Str} {t : β} (h : lookupKid l x = some t) : (x, t) ∈ l := by
+  induction l with
+  | nil => simp [lookupKid] at h
+  | cons p ps ih =>
+    obtain ⟨n, t'⟩ := p
+    rw [lookupKid_cons] at h
+    by_cases hn : n = x
+    · subst hn; simp at h; subst h; exact List.mem_cons_self ..
+    · simp [hn] at h; exact List.mem_cons_of_mem _ (ih h)
+
 theorem lookupKid_append {β} (l1 l2 : List (Str × β)) (x : Str) :
     lookupKid (l1 ++ l2) x = match lookupKid l1 x with | some t => some t | none => lookupKid l2 x := by
   induction l1 with
@@ -930,23 +937,23 @@ theorem serve_file (om : OpaqueMode) (a : Attr) : serve om (.file a) = .file a :
 
 theorem serve_dir (om : OpaqueMode) (a : Attr) (kids : List (Str × Tree)) :
     serve om (.dir a kids) =
-      .dir a (if hasName kids opaqueMarker then opaqueXattrs om else []) (serveKids om kids kids) := by
+      .dir a (if hasName kids opaqueMarker then opaqueXattrs om else []) (serveKids om false kids kids) := by
   simp [serve]
 
-theorem serveKids_nil (om : OpaqueMode) (all : List (Str × Tree)) : serveKids om all [] = [] := by
+theorem serveKids_nil (om : OpaqueMode) (r : Bool) (all : List (Str × Tree)) : serveKids om r all [] = [] := by
   simp [serveKids]
 
-theorem serveKids_cons (om : OpaqueMode) (all : List (Str × Tree)) (n : Str) (t : Tree) (rest) :
-    serveKids om all ((n, t) :: rest) =
+theorem serveKids_cons (om : OpaqueMode) (r : Bool) (all : List (Str × Tree)) (n : Str) (t : Tree) (rest) :
+    serveKids om r all ((n, t) :: rest) =
       match whTarget? n with
       | some tgt =>
-        if n = opaqueMarker ∨ hasReal all tgt then serveKids om all rest
-        else (tgt, .file (whAttr t.attr.id)) :: serveKids om all rest
-      | none => (n, serve om t) :: serveKids om all rest := by
+        if n = opaqueMarker ∨ badTarget r tgt = true ∨ hasReal all tgt = true then serveKids om r all rest
+        else (tgt, .file (whAttr t.attr.id)) :: serveKids om r all rest
+      | none => (n, serve om t) :: serveKids om r all rest := by
   cases h : whTarget? n with
   | none => simp [serveKids, h]
   | some tgt =>
-    by_cases hc : n = opaqueMarker ∨ hasReal all tgt = true
+    by_cases hc : n = opaqueMarker ∨ badTarget r tgt = true ∨ hasReal all tgt = true
     · simp [serveKids, h, hc]
     · simp [serveKids, h, hc]
 
@@ -982,12 +989,12 @@ theorem okTree_dir (kx : KX) (a : Attr) (kids) :
 
 theorem okKids_cons (kx : KX) (all : List (Str × Tree)) (n : Str) (t : Tree) (rest) :
     okKids kx all ((n, t) :: rest) =
-      ((isWh n || (okTree kx t && !(t.isDir && hasWhiteoutFor all n))) && okKids kx all rest) := by
+      ((isWh n || (validName n && okTree kx t && !(t.isDir && hasWhiteoutFor all n))) && okKids kx all rest) := by
   simp [okKids]
 
 theorem okKids_lookup {kx : KX} {all l : List (Str × Tree)} (h : okKids kx all l = true) {x : Str} {t : Tree}
     (hx : isWh x = false) (hl : lookupKid l x = some t) :
-    okTree kx t = true ∧ (t.isDir && hasWhiteoutFor all x) = false := by
+    okTree kx t = true ∧ (t.isDir && hasWhiteoutFor all x) = false ∧ validName x = true := by
   induction l with
   | nil => simp [lookupKid] at hl
   | cons p ps ih =>
@@ -1001,8 +1008,8 @@ theorem okKids_lookup {kx : KX} {all l : List (Str × Tree)} (h : okKids kx all 
       subst hl
       rcases h.1 with hw | hok
       · rw [hx] at hw; cases hw
-      · simp only [Bool.and_eq_true, Bool.not_eq_true'] at hok
-        exact ⟨hok.1, hok.2⟩
+      · simp only [Bool.not_eq_true'] at hok
+        exact ⟨hok.1.2, hok.2, hok.1.1⟩
     · simp only [hn, if_false] at hl
       exact ih h.2 hl
 
@@ -1012,8 +1019,9 @@ theorem hasReal_iff {β} {all : List (Str × β)} {x : Str} :
     hasReal all x = true ↔ isWh x = false ∧ (lookupKid all x).isSome = true := by
   simp [hasReal, hasName]
 
-theorem serveKids_real {om : OpaqueMode} {all : List (Str × Tree)} {x : Str} (hr : hasReal all x = true)
-    (l : List (Str × Tree)) : lookupKid (serveKids om all l) x = (lookupKid l x).map (serve om) := by
+theorem serveKids_real {om : OpaqueMode} {r : Bool} {all : List (Str × Tree)} {x : Str}
+    (hr : hasReal all x = true) (l : List (Str × Tree)) :
+    lookupKid (serveKids om r all l) x = (lookupKid l x).map (serve om) := by
   have hx : isWh x = false := (hasReal_iff.mp hr).1
   induction l with
   | nil => simp [serveKids_nil, lookupKid]
@@ -1033,13 +1041,13 @@ theorem serveKids_real {om : OpaqueMode} {all : List (Str × Tree)} {x : Str} (h
       · exact ih
       · rename_i hcond
         have : tgt ≠ x := by
-          intro h; apply hcond; right; rw [h]; exact hr
+          intro h; apply hcond; right; right; rw [h]; exact hr
         simp [lookupKid_cons, this, ih]
 
-theorem serveKids_noreal {om : OpaqueMode} {all : List (Str × Tree)} {x : Str} (hr : hasReal all x = false)
-    (l : List (Str × Tree)) (hl : ∀ p ∈ l, isWh p.1 = false → p.1 ≠ x) :
-    lookupKid (serveKids om all l) x =
-      if mkWh x = opaqueMarker then none
+theorem serveKids_noreal {om : OpaqueMode} {r : Bool} {all : List (Str × Tree)} {x : Str}
+    (hr : hasReal all x = false) (l : List (Str × Tree)) (hl : ∀ p ∈ l, isWh p.1 = false → p.1 ≠ x) :
+    lookupKid (serveKids om r all l) x =
+      if mkWh x = opaqueMarker ∨ badTarget r x = true then none
       else (lookupKid l (mkWh x)).map fun t => Lower.file (whAttr t.attr.id) := by
   induction l with
   | nil => simp [serveKids_nil, lookupKid]
@@ -1060,23 +1068,25 @@ theorem serveKids_noreal {om : OpaqueMode} {all : List (Str × Tree)} {x : Str} 
       split
       · rename_i hcond
         rw [ih', lookupKid_cons]
-        by_cases hm : mkWh x = opaqueMarker
+        by_cases hm : mkWh x = opaqueMarker ∨ badTarget r x = true
         · simp [hm]
         · simp only [hm, if_false]
           have : n ≠ mkWh x := by
             intro h
-            rcases hcond with hc | hc
-            · exact hm (h ▸ hc)
-            · have : tgt = x := mkWh_inj.mp (hn ▸ h)
-              rw [this, hr] at hc; cases hc
+            have htx : tgt = x := mkWh_inj.mp (hn ▸ h)
+            rcases hcond with hc | hc | hc
+            · exact hm (Or.inl (h ▸ hc))
+            · exact hm (Or.inr (htx ▸ hc))
+            · rw [htx, hr] at hc; cases hc
           simp [this]
       · rename_i hcond
         have hnm : n ≠ opaqueMarker := fun h => hcond (Or.inl h)
         rw [lookupKid_cons, lookupKid_cons]
         by_cases htx : tgt = x
         · subst htx
-          have : mkWh tgt ≠ opaqueMarker := hn ▸ hnm
-          simp [this, hn]
+          have h1 : mkWh tgt ≠ opaqueMarker := hn ▸ hnm
+          have h2 : ¬ badTarget r tgt = true := fun h => hcond (Or.inr (Or.inl h))
+          simp [h1, h2, hn]
         · have : n ≠ mkWh x := by
             intro h; exact htx (mkWh_inj.mp (hn ▸ h))
           simp only [htx, this, if_false, ih']
@@ -1084,34 +1094,32 @@ theorem serveKids_noreal {om : OpaqueMode} {all : List (Str × Tree)} {x : Str} 
 theorem isWhiteoutDev_whAttr (id : Nat) : isWhiteoutDev (whAttr id) = true := by
   simp [isWhiteoutDev, whAttr, S_IFCHR_type]
 
-/-- The per-directory translation: what the served directory holds at `x`, by what the layer directory says. -/
-theorem served_name {om : OpaqueMode} (all : List (Str × Tree)) (x : Str) :
+theorem badTarget_of_wh {r : Bool} {x : Str} (h : isWh x = true) : badTarget r x = true := by
+  simp [badTarget, h]
+
+/-- The per-directory translation: what the served directory holds at `x`, by what the layer directory
+says.  A whiteout of a name Lookup never resolves (`badTarget`) is not served. -/
+theorem served_name {om : OpaqueMode} (r : Bool) (all : List (Str × Tree)) (x : Str) :
     match classify all x with
-    | .whiteout => ∃ id, lookupKid (serveKids om all all) x = some (.file (whAttr id))
-    | .file f => lookupKid (serveKids om all all) x = some (.file f)
-    | .dir a k => lookupKid (serveKids om all all) x = some (serve om (.dir a k))
-    | .absent => lookupKid (serveKids om all all) x = none := by
+    | .whiteout =>
+      if badTarget r x = true then lookupKid (serveKids om r all all) x = none
+      else ∃ id, lookupKid (serveKids om r all all) x = some (.file (whAttr id))
+    | .file f => lookupKid (serveKids om r all all) x = some (.file f)
+    | .dir a k => lookupKid (serveKids om r all all) x = some (serve om (.dir a k))
+    | .absent => lookupKid (serveKids om r all all) x = none := by
   unfold classify lookupReal
   by_cases hx : isWh x = true
-  · -- a `.wh.` name is never real
+  · -- a `.wh.` name is never real and never a served whiteout target
     have hr : hasReal all x = false := by simp [hasReal, hx]
     have hside : ∀ p ∈ all, isWh p.1 = false → p.1 ≠ x := by
       intro p _ hp h; rw [h, hx] at hp; cases hp
+    have hb : badTarget r x = true := badTarget_of_wh hx
+    have hnone : lookupKid (serveKids om r all all) x = none := by
+      rw [serveKids_noreal hr all hside]; simp [hb]
     simp only [hx, if_true]
-    rw [serveKids_noreal hr all hside]
     by_cases hw : hasWhiteoutFor all x = true
-    · simp only [hw, if_true]
-      simp only [hasWhiteoutFor, Bool.and_eq_true, bne_iff_ne, ne_eq, hasName] at hw
-      cases hl : lookupKid all (mkWh x) with
-      | none => simp [hl] at hw
-      | some t => exact ⟨t.attr.id, by simp [hw.2]⟩
-    · simp only [hw, Bool.false_eq_true, if_false]
-      simp only [hasWhiteoutFor, Bool.and_eq_true, bne_iff_ne, ne_eq, hasName, not_and, Decidable.not_not] at hw
-      by_cases hm : mkWh x = opaqueMarker
-      · simp [hm]
-      · cases hl : lookupKid all (mkWh x) with
-        | none => simp [hm]
-        | some t => exact absurd (hw (by simp [hl])) hm
+    · simp only [hw, if_true, hb]; exact hnone
+    · simp only [hw, Bool.false_eq_true, if_false]; exact hnone
   · have hx' : isWh x = false := by simpa using hx
     simp only [hx', Bool.false_eq_true, if_false]
     cases hl : lookupKid all x with
@@ -1129,9 +1137,12 @@ theorem served_name {om : OpaqueMode} (all : List (Str × Tree)) (x : Str) :
       by_cases hw : hasWhiteoutFor all x = true
       · simp only [hw, if_true]
         simp only [hasWhiteoutFor, Bool.and_eq_true, hasName] at hw
-        cases hl2 : lookupKid all (mkWh x) with
-        | none => simp [hl2] at hw
-        | some t => exact ⟨t.attr.id, by simp [hm]⟩
+        by_cases hb : badTarget r x = true
+        · simp [hb]
+        · simp only [hb, if_false]
+          cases hl2 : lookupKid all (mkWh x) with
+          | none => simp [hl2] at hw
+          | some t => exact ⟨t.attr.id, by simp [hm, hb]⟩
       · simp only [hw, Bool.false_eq_true, if_false]
         simp only [hasWhiteoutFor, Bool.and_eq_true, hasName, bne_iff_ne, ne_eq, not_and, Decidable.not_not] at hw
         cases hl2 : lookupKid all (mkWh x) with
@@ -1145,7 +1156,8 @@ theorem compat_mem {om : OpaqueMode} {kx : KX} (h : compat om kx = true) : kxNam
 
 /-- The kernel finds the served directory opaque exactly when the layer directory has the marker. -/
 theorem lowerOpaque_serveDir {om : OpaqueMode} {kx : KX} (hc : compat om kx = true) {d : DirT}
-    (hok : okTree kx d.tree = true) : lowerOpaque kx (serveDir om d) = hasName d.2 opaqueMarker := by
+    (hok : okTree kx d.tree = true) (r : Bool) :
+    lowerOpaque kx (serveDir om r d) = hasName d.2 opaqueMarker := by
   obtain ⟨a, all⟩ := d
   simp only [DirT.tree, okTree_dir, Bool.and_eq_true, bne_iff_ne, ne_eq] at hok
   simp only [lowerOpaque, serveDir, lowerGetxattr]
@@ -1168,7 +1180,7 @@ theorem classify_ok {kx : KX} {all : List (Str × Tree)} (hok : okKids kx all al
     cases hl : lookupKid all x with
     | none => by_cases hw : hasWhiteoutFor all x = true <;> simp [hw]
     | some t =>
-      obtain ⟨h1, h2⟩ := okKids_lookup hok hx' hl
+      obtain ⟨h1, h2, _⟩ := okKids_lookup hok hx' hl
       cases t with
       | file f => simpa [okTree_file] using h1
       | dir a k => exact ⟨h1, by simpa [Tree.isDir] using h2⟩
@@ -1208,31 +1220,79 @@ theorem sub_ok {kx : KX} {x : Str} : ∀ {tl : List DirT}, OkDirs kx tl → ∀ 
           | absent => rw [hs] at hd'; cases hd'
           | file f => rw [hs] at hd'; cases hd'
 
-/-- Name-level merge: looking `x` up through the served directories gives the served form of what OCI
-application leaves at `x`. -/
-theorem descend_serve {om : OpaqueMode} {kx : KX} (hc : compat om kx = true) (x : Str) :
-    ∀ {tl : List DirT}, OkDirs kx tl → descend kx x (tl.map (serveDir om)) = (sub x tl).serve om := by
+/-- A name Lookup never resolves is left absent by OCI application too: no real entry has such a name. -/
+theorem sub_bad {kx : KX} {r : Bool} {x : Str} (hb : badTarget r x = true) :
+    ∀ {tl : List DirT}, OkDirs kx tl → NoLandmarkKids r tl → sub x tl = .absent := by
   intro tl
   induction tl with
-  | nil => intro _; rfl
+  | nil => intro _ _; rfl
   | cons d rest ih =>
-    intro hok
+    intro hok hlm
     have hd := hok d (List.mem_cons_self ..)
     have hrest : OkDirs kx rest := fun d' hd' => hok d' (List.mem_cons_of_mem _ hd')
+    have hlmr : NoLandmarkKids r rest := fun hr d' hd' => hlm hr d' (List.mem_cons_of_mem _ hd')
+    have hk : okKids kx d.2 d.2 = true := by
+      obtain ⟨a, all⟩ := d
+      simp only [DirT.tree, okTree_dir, Bool.and_eq_true] at hd; exact hd.2
+    have hreal : lookupReal d.2 x = none := by
+      unfold lookupReal
+      by_cases hx : isWh x = true
+      · simp [hx]
+      · have hx' : isWh x = false := by simpa using hx
+        simp only [hx', Bool.false_eq_true, if_false]
+        cases hl : lookupKid d.2 x with
+        | none => rfl
+        | some t =>
+          exfalso
+          obtain ⟨_, _, hv⟩ := okKids_lookup hk hx' hl
+          simp only [validName, Bool.and_eq_true, bne_iff_ne, ne_eq, Bool.not_eq_true'] at hv
+          simp only [badTarget, Bool.or_eq_true, beq_iff_eq, hx', Bool.false_eq_true, or_false,
+            Bool.and_eq_true] at hb
+          rcases hb with (hb | hb) | hb
+          · exact hv.1 hb
+          · rw [hv.2] at hb; cases hb
+          · have := hlm hb.1 d (List.mem_cons_self ..) (x, t) (lookupKid_mem hl)
+            rw [hb.2] at this; cases this
+    simp only [sub, classify, hreal]
+    by_cases hw : hasWhiteoutFor d.2 x = true
+    · simp [hw]
+    · simp only [hw, Bool.false_eq_true, if_false]
+      split
+      · rfl
+      · exact ih hrest hlmr
+
+/-- Name-level merge: looking `x` up through the served directories gives the served form of what OCI
+application leaves at `x`. -/
+theorem descend_serve {om : OpaqueMode} {kx : KX} (hc : compat om kx = true) (r : Bool) (x : Str) :
+    ∀ {tl : List DirT}, OkDirs kx tl → NoLandmarkKids r tl →
+      descend kx x (tl.map (serveDir om r)) = (sub x tl).serve om := by
+  intro tl
+  induction tl with
+  | nil => intro _ _; rfl
+  | cons d rest ih =>
+    intro hok hlm
+    have hd := hok d (List.mem_cons_self ..)
+    have hrest : OkDirs kx rest := fun d' hd' => hok d' (List.mem_cons_of_mem _ hd')
+    have hlmr : NoLandmarkKids r rest := fun hr d' hd' => hlm hr d' (List.mem_cons_of_mem _ hd')
     have hk : okKids kx d.2 d.2 = true := by
       obtain ⟨a, all⟩ := d
       simp only [DirT.tree, okTree_dir, Bool.and_eq_true] at hd; exact hd.2
     have hcl := classify_ok hk x
-    have hsn := served_name (om := om) d.2 x
-    have hop := lowerOpaque_serveDir hc hd
+    have hsn := served_name (om := om) r d.2 x
+    have hop := lowerOpaque_serveDir hc hd r
     simp only [List.map_cons, descend, sub]
-    have hkids : (serveDir om d).2.2 = serveKids om d.2 d.2 := rfl
-    rw [hkids, hop, ih hrest]
+    have hkids : (serveDir om r d).2.2 = serveKids om r d.2 d.2 := rfl
+    rw [hkids, hop, ih hrest hlmr]
     cases hcls : classify d.2 x with
     | whiteout =>
       simp only [hcls] at hsn
-      obtain ⟨id, hid⟩ := hsn
-      simp [hid, isWhiteoutDev_whAttr, Sub.serve]
+      by_cases hb : badTarget r x = true
+      · simp only [hb, if_true] at hsn
+        simp only [hsn, sub_bad hb hrest hlmr]
+        split <;> rfl
+      · simp only [hb, if_false] at hsn
+        obtain ⟨id, hid⟩ := hsn
+        simp [hid, isWhiteoutDev_whAttr, Sub.serve]
     | file f =>
       simp only [hcls] at hsn hcl
       simp [hsn, hcl, Sub.serve]
@@ -1390,42 +1450,45 @@ theorem applied_step {kx : KX} (x : Str) (p : List Str) {tl : List DirT} (hok : 
 /-- The tree version: every path resolves alike in the overlay of the served directories and in the
 directory obtained by OCI application. -/
 theorem ovl_eq_applied {om : OpaqueMode} {kx : KX} (hc : compat om kx = true) (p : List Str) :
-    ∀ {tl : List DirT}, OkDirs kx tl → ovlResolve kx (tl.map (serveDir om)) p = resolveOpt (appliedOf tl) p := by
+    ∀ {r : Bool} {tl : List DirT}, OkDirs kx tl → NoLandmarkKids r tl →
+      ovlResolve kx (tl.map (serveDir om r)) p = resolveOpt (appliedOf tl) p := by
   induction p with
   | nil =>
-    intro tl _
+    intro r tl _ _
     cases tl with
     | nil => rfl
     | cons d rest =>
       obtain ⟨kids, hk⟩ := appliedOf_cons_dir d rest
       simp [ovlResolve, hk, resolveOpt, resolve, Tree.node, serveDir]
   | cons x p ih =>
-    intro tl hok
+    intro r tl hok hlm
     cases tl with
     | nil => rfl
     | cons d rest =>
       rw [applied_step x p hok]
-      have hds := descend_serve hc x hok
+      have hds := descend_serve hc r x hok hlm
       simp only [List.map_cons] at hds ⊢
       simp only [ovlResolve, hds]
       cases hs : sub x (d :: rest) with
       | absent => simp [Sub.serve]
       | file f => simp [Sub.serve]
-      | dirs ds => simp only [Sub.serve]; exact ih (sub_ok hok hs)
+      | dirs ds =>
+        simp only [Sub.serve]
+        exact ih (r := false) (sub_ok hok hs) (fun h => by cases h)
 
 /-! ## Whole layers -/
 
 theorem stripRoot_tree (d : DirT) : stripRoot d.tree = (stripD d).tree := rfl
 
 theorem serveRoot_dir (om : OpaqueMode) (d : DirT) :
-    (serveRoot om d.tree).dir? = some (serveDir om (stripD d)) := by
+    (serveRoot om d.tree).dir? = some (serveDir om true (stripD d)) := by
   obtain ⟨a, kids⟩ := d
   simp only [serveRoot, DirT.tree, stripRoot, serve_dir, Lower.dir?, serveDir, stripD]
   rfl
 
 theorem served_stack (om : OpaqueMode) (layers : List DirT) :
     ((layers.map fun d => serveRoot om d.tree).reverse.filterMap Lower.dir?) =
-      (layers.reverse.map stripD).map (serveDir om) := by
+      (layers.reverse.map stripD).map (serveDir om true) := by
   rw [← List.map_reverse, List.filterMap_map]
   rw [List.map_map]
   induction layers.reverse with
@@ -1469,6 +1532,13 @@ theorem layers_ok {kx : KX} {layers : List DirT} (hok : ∀ d ∈ layers, LayerO
   exact hok d0 hd0
 
 
+theorem layers_noLandmark (layers : List DirT) : NoLandmarkKids true (layers.reverse.map stripD) := by
+  intro _ d hd p hp
+  simp only [List.mem_map, List.mem_reverse] at hd
+  obtain ⟨d0, _, rfl⟩ := hd
+  simp only [stripD, List.mem_filter, Bool.not_eq_true'] at hp
+  exact hp.2
+
 /-! ## Histories -/
 
 theorem stable_ok (r : LRes) : r.stable.ok = r.ok := by cases r <;> rfl
@@ -1484,24 +1554,9 @@ theorem runSt_inv {d : Dir} (ops : List Op) : ∀ {s : NodeSt}, Inv d s → Inv 
   | nil => intro s h; exact h
   | cons o os ih => intro s h; exact ih (stepOp_inv h o)
 
-theorem lookupSt_eq_pure {d : Dir} {s : NodeSt} (hi : Inv d s) (n : Str) :
-    (lookupSt d s n).2.stable = lookupPure d n := lookupSt_stable hi n
+theorem lookupSt_eq_pure {d : Dir} {s : NodeSt} (hi : Inv d s) (n : Str) (hne : n ≠ []) :
+    (lookupSt d s n).2.stable = lookupPure d n := lookupSt_stable hi n hne
 
-
-/-- Decidable form of `WhTargetsPlain`. -/
-def whTargetsPlainB (d : Dir) : Bool :=
-  d.children.all fun c =>
-    match whOf d.isRoot c.name with
-    | some t => !isWh t && !(d.isRoot && isLandmark t)
-    | none => true
-
-theorem whTargetsPlain_of_B {d : Dir} (h : whTargetsPlainB d = true) : WhTargetsPlain d := by
-  intro c hc t hwo
-  have := (List.all_eq_true.mp h) c hc
-  simp only [hwo, Bool.and_eq_true, Bool.not_eq_true'] at this
-  exact this
-
-/-! ## `serve` is `readdir` at every directory -/
 
 theorem getChild_map (kids : List (Str × Tree)) (n : Str) :
     getChild (kids.map childOf) n = (lookupKid kids n).map fun t => childOf (n, t) := by
@@ -1530,23 +1585,13 @@ theorem lookupKid_served (isRoot : Bool) (kids : List (Str × Tree)) (n : Str) :
     rw [lookupKid_filter (fun n => !isLandmark n)]
     cases isLandmark n <;> simp
 
-theorem lookupKid_mem {β} {l : List (Str × β)} {x : Str} {t : β} (h : lookupKid l x = some t) : (x, t) ∈ l := by
-  induction l with
-  | nil => simp [lookupKid] at h
-  | cons p ps ih =>
-    obtain ⟨n, t'⟩ := p
-    rw [lookupKid_cons] at h
-    by_cases hn : n = x
-    · subst hn; simp at h; subst h; exact List.mem_cons_self ..
-    · simp [hn] at h; exact List.mem_cons_of_mem _ (ih h)
-
 /-- `serve` at one directory shows exactly what `readdir` lists for the node of that directory, with the
 same type bits and inode source. -/
 theorem serve_matches_readdir (om : OpaqueMode) (isRoot : Bool) (base : Nat) (a : Attr)
     (kids : List (Str × Tree)) {ents : List DirEnt}
     (h : readdir (dirOfTree isRoot base a kids) = some ents) (x : Str) (hx : isDots x = false) :
     (∃ e ∈ ents, e.name = x) ↔
-      (lookupKid (serveKids om (servedKidsOf isRoot kids) (servedKidsOf isRoot kids)) x).isSome = true := by
+      (lookupKid (serveKids om isRoot (servedKidsOf isRoot kids) (servedKidsOf isRoot kids)) x).isSome = true := by
   obtain ⟨d, hd⟩ : ∃ d, d = dirOfTree isRoot base a kids := ⟨_, rfl⟩
   obtain ⟨sk, hsk⟩ : ∃ sk, sk = servedKidsOf isRoot kids := ⟨_, rfl⟩
   rw [← hd] at h
@@ -1580,10 +1625,10 @@ theorem serve_matches_readdir (om : OpaqueMode) (isRoot : Bool) (base : Nat) (a 
           · rw [hch]; exact List.mem_map_of_mem (lookupKid_mem hlk)
           · show isNormal d.isRoot x = true
             exact isNormal_iff.mpr ⟨hx, by simpa [hroot] using hl, hw⟩
-  have hsn := served_name (om := om) sk x
+  have hsn := served_name (om := om) isRoot sk x
   constructor
   · rintro ⟨e, he, hen⟩
-    rcases (mem_readdir h e).mp he with hdot | ⟨c, hc, hnorm, hce⟩ | ⟨c, hc, t, hwo, hno, hce⟩
+    rcases (mem_readdir h e).mp he with hdot | ⟨c, hc, hnorm, hce⟩ | ⟨c, hc, t, hwo, hbt, hno, hce⟩
     · exfalso
       simp only [dotEnts, List.mem_cons, List.mem_nil_iff, or_false] at hdot
       have : isDots x = true := by rcases hdot with rfl | rfl <;> (rw [← hen]; decide)
@@ -1612,7 +1657,8 @@ theorem serve_matches_readdir (om : OpaqueMode) (isRoot : Bool) (base : Nat) (a 
         rw [hr] at this; cases this
       rw [serveKids_noreal hr sk hside]
       have hm : mkWh t ≠ opaqueMarker := hcn ▸ hnm
-      simp only [hm, if_false]
+      have hbt' : ¬ badTarget isRoot t = true := by rw [← hroot, hbt]; simp
+      simp only [hm, hbt', or_self, if_false]
       rw [hsk, lookupKid_served]
       have : (isRoot && isLandmark (mkWh t)) = false := by simp [wh_not_landmark (isWh_mkWh t)]
       simp only [this, Bool.false_eq_true, if_false]
@@ -1622,34 +1668,36 @@ theorem serve_matches_readdir (om : OpaqueMode) (isRoot : Bool) (base : Nat) (a 
       | some _ => rfl
       | none => exact absurd hcn ((lookupKid_none.mp hlk) p hp)
   · intro hs
+    -- a served whiteout of `x`: its target can be looked up, so `readdir` lists it
+    have wh_case : hasWhiteoutFor sk x = true → badTarget isRoot x = false → hasNormal d x = false →
+        ∃ e ∈ ents, e.name = x := by
+      intro hwf hbf hno
+      simp only [hasWhiteoutFor, Bool.and_eq_true, bne_iff_ne, ne_eq, hasName] at hwf
+      obtain ⟨hname, hm⟩ := hwf
+      rw [hsk, lookupKid_served] at hname
+      have hl : (isRoot && isLandmark (mkWh x)) = false := by simp [wh_not_landmark (isWh_mkWh x)]
+      simp only [hl, Bool.false_eq_true, if_false] at hname
+      cases hlk : lookupKid kids (mkWh x) with
+      | none => rw [hlk] at hname; cases hname
+      | some t =>
+        have hc : childOf (mkWh x, t) ∈ d.children := by
+          rw [hch]; exact List.mem_map_of_mem (lookupKid_mem hlk)
+        have hwo : whOf d.isRoot (childOf (mkWh x, t)).name = some x :=
+          whOf_eq_some.mpr ⟨rfl, hm, by simpa [hroot, childOf] using hl⟩
+        have hbd : badTarget d.isRoot x = false := by rw [hroot]; exact hbf
+        have hsome := readdir_some_wh h hc hwo hbd hno
+        cases hce : whEnt d.base x (childOf (mkWh x, t)) with
+        | none => simp [hce] at hsome
+        | some e =>
+          exact ⟨e, (mem_readdir h e).mpr (Or.inr (Or.inr ⟨_, hc, x, hwo, hbd, hno, hce⟩)), (whEnt_eq hce).1⟩
     unfold classify lookupReal at hsn
     by_cases hw : isWh x = true
-    · simp only [hw, if_true] at hsn
+    · exfalso
+      have hb : badTarget isRoot x = true := badTarget_of_wh hw
+      simp only [hw, if_true] at hsn
       by_cases hwf : hasWhiteoutFor sk x = true
-      · -- a whiteout of a `.wh.` name: listed (this is the defect the property theorems name)
-        simp only [hasWhiteoutFor, Bool.and_eq_true, bne_iff_ne, ne_eq, hasName] at hwf
-        obtain ⟨hname, hm⟩ := hwf
-        rw [hsk, lookupKid_served] at hname
-        have hl : (isRoot && isLandmark (mkWh x)) = false := by simp [wh_not_landmark (isWh_mkWh x)]
-        simp only [hl, Bool.false_eq_true, if_false] at hname
-        cases hlk : lookupKid kids (mkWh x) with
-        | none => rw [hlk] at hname; cases hname
-        | some t =>
-          have hc : childOf (mkWh x, t) ∈ d.children := by
-            rw [hch]; exact List.mem_map_of_mem (lookupKid_mem hlk)
-          have hwo : whOf d.isRoot (childOf (mkWh x, t)).name = some x :=
-            whOf_eq_some.mpr ⟨rfl, hm, by simpa [hroot, childOf] using hl⟩
-          have hno : hasNormal d x = false := by
-            cases hh : hasNormal d x with
-            | false => rfl
-            | true =>
-              obtain ⟨hw', _⟩ := hasReal_iff.mp (normal_iff.mp hh)
-              rw [hw] at hw'; cases hw'
-          have hsome := readdir_some_wh h hc hwo hno
-          cases hce : whEnt d.base x (childOf (mkWh x, t)) with
-          | none => simp [hce] at hsome
-          | some e =>
-            exact ⟨e, (mem_readdir h e).mpr (Or.inr (Or.inr ⟨_, hc, x, hwo, hno, hce⟩)), (whEnt_eq hce).1⟩
+      · simp only [hwf, if_true, hb] at hsn
+        rw [hsn] at hs; cases hs
       · simp only [hwf, Bool.false_eq_true, if_false] at hsn
         rw [hsn] at hs; cases hs
     · have hw' : isWh x = false := by simpa using hw
@@ -1665,30 +1713,18 @@ theorem serve_matches_readdir (om : OpaqueMode) (isRoot : Bool) (base : Nat) (a 
           exact ⟨e, (mem_readdir h e).mpr (Or.inr (Or.inl ⟨c, hc, hn, hce⟩)), (normalEnt_eq hce).1.trans hcn⟩
       | none =>
         simp only [hlk] at hsn
+        have hno : hasNormal d x = false := by
+          cases hh : hasNormal d x with
+          | false => rfl
+          | true =>
+            obtain ⟨_, hs'⟩ := hasReal_iff.mp (normal_iff.mp hh)
+            rw [hlk] at hs'; cases hs'
         by_cases hwf : hasWhiteoutFor sk x = true
-        · simp only [hasWhiteoutFor, Bool.and_eq_true, bne_iff_ne, ne_eq, hasName] at hwf
-          obtain ⟨hname, hm⟩ := hwf
-          rw [hsk, lookupKid_served] at hname
-          have hl : (isRoot && isLandmark (mkWh x)) = false := by simp [wh_not_landmark (isWh_mkWh x)]
-          simp only [hl, Bool.false_eq_true, if_false] at hname
-          cases hlk2 : lookupKid kids (mkWh x) with
-          | none => rw [hlk2] at hname; cases hname
-          | some t =>
-            have hc : childOf (mkWh x, t) ∈ d.children := by
-              rw [hch]; exact List.mem_map_of_mem (lookupKid_mem hlk2)
-            have hwo : whOf d.isRoot (childOf (mkWh x, t)).name = some x :=
-              whOf_eq_some.mpr ⟨rfl, hm, by simpa [hroot, childOf] using hl⟩
-            have hno : hasNormal d x = false := by
-              cases hh : hasNormal d x with
-              | false => rfl
-              | true =>
-                obtain ⟨_, hs'⟩ := hasReal_iff.mp (normal_iff.mp hh)
-                rw [hlk] at hs'; cases hs'
-            have hsome := readdir_some_wh h hc hwo hno
-            cases hce : whEnt d.base x (childOf (mkWh x, t)) with
-            | none => simp [hce] at hsome
-            | some e =>
-              exact ⟨e, (mem_readdir h e).mpr (Or.inr (Or.inr ⟨_, hc, x, hwo, hno, hce⟩)), (whEnt_eq hce).1⟩
+        · simp only [hwf, if_true] at hsn
+          by_cases hb : badTarget isRoot x = true
+          · simp only [hb, if_true] at hsn
+            rw [hsn] at hs; cases hs
+          · exact wh_case hwf (by simpa using hb) hno
         · simp only [hwf, Bool.false_eq_true, if_false] at hsn
           rw [hsn] at hs; cases hs
 
